@@ -32,6 +32,10 @@ type c08Msg struct {
 	Frags    int
 	SetLimit int64 // limit set before reading this message (c08Default = leave)
 	Late     bool  // the limit is set from another goroutine while the Read for this message is already waiting
+	// Again (API reader): after the first Read of this message that handed out data, the application sets the
+	// limit that is in force once more - the same number (configuration applied again). The limit has not
+	// changed, so neither has what may be delivered
+	Again bool
 }
 
 type c08Huge struct {
@@ -55,7 +59,7 @@ type c08Case struct {
 func (c c08Case) String() string {
 	s := fmt.Sprintf("{mode=%s api=%s buf=%d chunk=%d writerOpen=%v msgs=[", c.Mode.Name, c.API, c.Buf, c.Chunk, c.WriterOpen)
 	for _, m := range c.Msgs {
-		s += fmt.Sprintf("{size=%d kind=%d comp=%v/%v frags=%d setlimit=%d late=%v}", m.Size, m.Kind, m.Compress, m.Variant, m.Frags, m.SetLimit, m.Late)
+		s += fmt.Sprintf("{size=%d kind=%d comp=%v/%v frags=%d setlimit=%d late=%v again=%v}", m.Size, m.Kind, m.Compress, m.Variant, m.Frags, m.SetLimit, m.Late, m.Again)
 	}
 	s += "]"
 	if c.Huge != nil {
@@ -120,6 +124,7 @@ func genC08(rt *rapid.T) c08Case {
 		}
 		m.Frags = rapid.IntRange(1, 4).Draw(rt, "frags")
 		m.Late = m.SetLimit != c08Default && c.API != "netconn" && rapid.IntRange(0, 2).Draw(rt, "late") == 0
+		m.Again = c.API == "reader" && !m.Late && rapid.IntRange(0, 2).Draw(rt, "sameLimitAgainMidMessage") == 0
 		c.Msgs = append(c.Msgs, m)
 	}
 	if rapid.IntRange(0, 4).Draw(rt, "huge") == 0 && c.API != "wsjson" {
@@ -322,6 +327,7 @@ func runC08(t fataler, c c08Case) (string, c08Result) {
 	var ms0, ms1 runtime.MemStats
 	runtime.ReadMemStats(&ms0)
 	done := e.Call(func() {
+		inForce := int64(32768) // the limit the application has configured (the documented default until it sets one)
 		readOne := func(i int, setLimit int64) got {
 			g := got{bad: -1}
 			want := hugePayload
@@ -332,6 +338,10 @@ func runC08(t fataler, c c08Case) (string, c08Result) {
 			if setLimit != c08Default && !lateSet {
 				conn.SetReadLimit(setLimit)
 			}
+			if setLimit != c08Default {
+				inForce = setLimit
+			}
+			again := i < len(c.Msgs) && c.Msgs[i].Again
 			if i < len(ready) {
 				close(ready[i])
 			}
@@ -346,6 +356,11 @@ func runC08(t fataler, c c08Case) (string, c08Result) {
 					n, err := r.Read(buf)
 					cmp(&g, buf[:n], want, g.n)
 					g.n += n
+					if again && n > 0 && err == nil {
+						again = false
+						conn.SetReadLimit(inForce)
+						evid.For("C08").Class("same-limit-set-again-in-the-middle-of-a-message", 1)
+					}
 					if err == io.EOF {
 						g.eof = true
 						return g
